@@ -203,6 +203,10 @@ def setup():
 def run_check(pid, tier, replay_file=None):
     c = CHECKS[pid]
     t0 = time.time()
+    if not replay_file:
+        import glob
+        for old in glob.glob(os.path.join(VERIF, "replays", pid + "-*.json")):
+            os.remove(old)
     seed = int(os.environ.get("VERIF_SEED", "0") or 0)
     merged = dict(states=0, transitions=0, evaluations=0, distinct_nontrivial=0, distinct_outcomes=0,
                   scenarios=0, exhaustive=True, caps=[], samples=[], notes=[], counters={})
